@@ -100,3 +100,39 @@ pub fn random_symbol_any(dim: usize, sizes: std::ops::RangeInclusive<usize>) -> 
         assign(&ds, &reps, &vals)
     })
 }
+
+/// a complete symbol of any dimension 1..=6 whose operations are arbitrary involutions (no
+/// commutation requirement, possibly disconnected): enough for properties about the text form
+pub fn unconstrained_symbol(dims: std::ops::RangeInclusive<usize>, sizes: std::ops::RangeInclusive<usize>) -> impl Strategy<Value = DS> {
+    (dims, sizes, prop::collection::vec(any::<u32>(), 48), prop::collection::vec(v_strategy(), 16)).prop_map(|(dim, n, ent, vs)| {
+        let mut ds = DS::new(dim, n);
+        let mut k = 0usize;
+        let mut next = |m: usize| {
+            let x = ent[k % ent.len()].wrapping_add(((k / ent.len()) as u32).wrapping_mul(0x9e37_79b9));
+            k += 1;
+            pick_index(x, m)
+        };
+        for i in 0..=dim {
+            let mut free: Vec<usize> = (1..=n).collect();
+            while !free.is_empty() {
+                let a = free.remove(0);
+                let c = next(free.len() + 1);
+                if c == free.len() {
+                    ds.op[i][a] = a;
+                } else {
+                    let b = free.remove(c);
+                    ds.op[i][a] = b;
+                    ds.op[i][b] = a;
+                }
+            }
+        }
+        for i in 0..dim {
+            for d in 1..=n {
+                ds.v[i][d] = 1;
+            }
+        }
+        let reps = orbit_reps(&ds);
+        let vals: Vec<usize> = (0..reps.len()).map(|j| vs[j % vs.len()]).collect();
+        assign(&ds, &reps, &vals)
+    })
+}
